@@ -356,6 +356,7 @@ fn fixed_shapes() -> Vec<Vec<PathControlPoint>> {
             }
         }
     }
+    v.extend(super::curves::near_collinear_arcs());
     v
 }
 
@@ -410,7 +411,7 @@ pub fn run(tier: Tier) -> i32 {
                bezier 0.25, arc 0.4, Catmull sampling bound (+6 in osu mode) plus an f32 slack; segment start/end at its \
                control points; collinear or >= 1000-sub-point perfect curves equal the bezier of the same points; an exactly \
                shared joint vertex appears once; plus fixed shapes: enormous / tiny perfect curves, a 10-point bezier, and beziers of \
-               5..10 anchors (the statement's range) spaced 2..12 px along arcs of radius 50..400. distinct_nontrivial = distinct (mode, path length, distance, end point)"
+               5..10 anchors (the statement's range) spaced 2..12 px along arcs of radius 50..400, and 3 060 almost straight three-point perfect curves (sagitta 0..1 px). distinct_nontrivial = distinct (mode, path length, distance, end point)"
             .into(),
         bounds: json!({"families": bounds, "fixed_shapes": fixed_shapes().len()}),
         exhaustive: true,
